@@ -40,7 +40,7 @@ const TOKENS: &[&[u8]] = &[
 ];
 
 /// Read an accepted board back into the reference representation: 64 squares, side to move,
-/// and rights / marker from the text form, cross-checked against the `{:?}` form.
+/// and rights / marker from the text form (the only public source for them).
 pub fn read_back(b: &Board) -> Result<Pos, String> {
     let mut p = Pos::empty();
     p.sq = squares(b);
@@ -67,17 +67,8 @@ pub fn read_back(b: &Board) -> Result<Pos, String> {
     }
     p.half = b.half_move_clock() as u32;
     p.full = b.full_move_clock() as u32;
-    // cross-check with the debug form
-    let dbg = format!("{b:?}");
-    let cr_line = dbg.lines().find(|l| l.starts_with("castle rights: ")).map(|l| l["castle rights: ".len()..].to_string());
-    if cr_line.as_deref() != Some(parts[2]) {
-        return Err(format!("text says rights `{}`, debug form says {cr_line:?}", parts[2]));
-    }
-    let ep_line = dbg.lines().find(|l| l.starts_with("en-passant: ")).map(|l| l["en-passant: ".len()..].to_string());
-    let want_ep = p.ep.map(|f| ((b'A' + f) as char).to_string());
-    if ep_line != want_ep {
-        return Err(format!("text says marker {:?}, debug form says {ep_line:?}", parts[3]));
-    }
+    // (the `{:?}` rendering is not a specified format, so it is deliberately not parsed here:
+    // a maintainer may change it freely)
     Ok(p)
 }
 
@@ -541,7 +532,7 @@ pub const C06: CheckDef = CheckDef {
     id: "C06",
     worker,
     replay,
-    rule: "six strategies: raw bytes (len 0..=120); token soup over FEN tokens; canonical FENs of playout positions with 1-4 edits (insert/delete/replace/duplicate/transpose/truncate/extra space/slash); well-formed but semantically wrong FENs by construction (0/2/3 kings, 17+ men, each right without rook or king, marker on occupied square / without pawn / own pawn / wrong piece / wrong rank, mover able to capture the king, adjacent kings, out-of-range clocks); canonical FENs of reachable positions (must be accepted and equal the lockstep board); builder scripts (place/remove/turn/enpassant/clocks then build). Oracle: no panic, parse_fen and str::parse agree, every accepted board read back (64 squares, turn, rights and marker via text cross-checked with {:?}) satisfies the playability predicate clause by clause. Non-trivial = input accepted or rejected only by validation (syntactically complete); distinct by bytes.",
+    rule: "six strategies: raw bytes (len 0..=120); token soup over FEN tokens; canonical FENs of playout positions with 1-4 edits (insert/delete/replace/duplicate/transpose/truncate/extra space/slash); well-formed but semantically wrong FENs by construction (0/2/3 kings, 17+ men, each right without rook or king, marker on occupied square / without pawn / own pawn / wrong piece / wrong rank, mover able to capture the king, adjacent kings, out-of-range clocks); canonical FENs of reachable positions (must be accepted and equal the lockstep board); builder scripts (place/remove/turn/enpassant/clocks then build). Oracle: no panic, parse_fen and str::parse agree, every accepted board read back (64 squares, turn, rights and marker via the text form) satisfies the playability predicate clause by clause. Non-trivial = input accepted or rejected only by validation (syntactically complete); distinct by bytes.",
     assumptions: &["playability predicate exactly as listed in the property (one king per side, <= 16 men per side, side not to move not attacked, rights need king+rook at home, marker needs an empty target directly behind an enemy pawn on its double-step rank)", "lenient syntax (repeated spaces) is not a violation: only totality and the predicate on accepted boards are asserted"],
     exhaustive: |_| false,
     uses_reference: true,
